@@ -21,6 +21,7 @@ EXPLANATION = (
     "gives the weakest assurance of the set."
     " Also decided (rules added after the fifth blind round): (R16.6) the --split part suffix never truncates the part number; (R16.7) with -n the interpreted engine's namespace is rebuilt for every record."
     " Rules added after the sixth blind round: (R16.8 = R15.2 of C15) the timestamp expansion reads the original record; (R16.9 = R20.2 of C20) the CSV writer writes a header per run of a record type."
+    " Rules added after the seventh blind round: (R16.10 = R5.9 of C05) the generated constructor / decoder of keyword-named descriptors never truth-tests a generic field value, so falsy values pass through rdump unchanged."
 )
 RULE_SUMMARY = "instances: source-handling call sites with their handlers, loop paths to the writer, slice arguments, rewriter definitions"
 
